@@ -12,7 +12,7 @@ from ..shims import SimExecutor
 PROPERTY = "C05"
 LEVEL = "exploration"
 TIMEOUT = 60.0
-QUICK_RUNS = 40_000
+QUICK_RUNS = 120_000
 THOROUGH_RUNS = 1_500_000
 COMPONENTS = {
     "real": ["strax.mailbox.Mailbox (send/_read/_send_from/close/kill/cleanup)",
